@@ -1,8 +1,10 @@
 // unit `csc_math` : diagonal scalings of CSC matrices, scale_data, clip (C10, C16)
-// float model: F-opaque (entry-wise products are stated in the float symbols: exact, no arithmetic assumption)
+// float model: F-opaque (entry-wise products are stated in the float symbols: exact, no arithmetic assumption);
+// the bounded-scaling clause of `equilibrate` additionally uses the F-real axioms (broadcast use real_arith)
 use vstd::prelude::*;
 verus! {
 //@include prelude/float_opaque.rs
+//@include prelude/float_real_axioms.rs
 //@include prelude/vecmath_assumed.rs
 //@include prelude/std_assumed.rs
 //@include units/inc/csc_scalings.rs
@@ -55,12 +57,19 @@ pub open spec fn rows_below(a: CscMatrix<F>, bound: int) -> bool {
 //@struct file=src/solver/implementations/default/equilibration.rs name=DefaultEquilibrationData
 //@struct file=src/solver/implementations/default/settings.rs name=DefaultSettings rules=R1f
 //@struct file=src/solver/implementations/default/problemdata.rs name=DefaultProblemData keep=P,q,A,b,n,m,equilibration
+pub open spec fn rect_ok(e: Seq<F>, delta: Seq<F>, i: int) -> bool {
+    &&& exists|j: int| 0 <= j < e.len() && (#[trigger] e[j]).v() <= e[i].v() * delta[i].v()
+    &&& exists|j: int| 0 <= j < e.len() && e[i].v() * delta[i].v() <= (#[trigger] e[j]).v()
+}
 // stand-in for CompositeCone (enum_dispatch over the cone types); rectify_equilibration: ASSUMED to keep lengths
 pub struct CompositeCone<T> { pub _p: Option<T> }
 impl CompositeCone<F> {
     #[verifier::external_body]
     pub fn rectify_equilibration(&self, delta: &mut [F], e: &[F]) -> (r: bool)
         ensures final(delta)@.len() == old(delta)@.len(),
+            // ASSUMED (F-real): rectification replaces e_i by a value inside the range spanned by e ("a convex combination
+            // of scalings over a cone"): e_i * delta_i lies between two entries of e
+            forall|i: int| 0 <= i < e@.len() && i < old(delta)@.len() ==> #[trigger] rect_ok(e@, final(delta)@, i),
     { unimplemented!() }
 }
 // norm kernels of MatrixMath (fold / closure based): ASSUMED to write only the output vector
@@ -75,6 +84,21 @@ impl CscMatrix<F> {
     ensures final(norm_LHS)@.len() == old(norm_LHS)@.len(), final(norm_RHS)@.len() == old(norm_RHS)@.len(),
 //@end
 
+// every entry of s lies in [lo, hi]
+pub open spec fn within(s: Seq<F>, lo: real, hi: real) -> bool { forall|i: int| 0 <= i < s.len() ==> lo <= (#[trigger] s[i]).v() <= hi }
+// clip(x, lo/d, hi/d) times d stays in [lo, hi] for d > 0
+pub proof fn lemma_clip_keeps_bounds(x: real, d: real, lo: real, hi: real, r: real)
+    requires d > 0real, 0real < lo <= hi,
+        (x < lo / d ==> r == lo / d), (!(x < lo / d) && hi / d < x ==> r == hi / d), (!(x < lo / d) && !(hi / d < x) ==> r == x),
+    ensures lo <= d * r <= hi,
+{
+    assert(d * (lo / d) == lo) by(nonlinear_arith) requires d > 0real;
+    assert(d * (hi / d) == hi) by(nonlinear_arith) requires d > 0real;
+    assert(lo / d <= hi / d) by(nonlinear_arith) requires d > 0real, lo <= hi;
+    if !(x < lo / d) && !(hi / d < x) {
+        assert(d * (lo / d) <= d * x <= d * (hi / d)) by(nonlinear_arith) requires d > 0real, lo / d <= x <= hi / d;
+    }
+}
 impl DefaultProblemData<F> {
     // dimensions as established by DefaultProblemData::new: P is n x n, A is m x n, q: n, b: m, scalings d: n, e: m
     pub open spec fn shape_ok(&self) -> bool {
@@ -88,26 +112,84 @@ impl DefaultProblemData<F> {
 //@fn file=src/solver/implementations/default/problemdata.rs in="ProblemData<T> for DefaultProblemData<T>" name=equilibrate rules=R1,zipidx:*
 //@contract
     requires old(self).shape_ok(),
+        // F-real part: sane scaling bounds (defaults 1e-4, 1e4) and initial scalings inside them (the constructor sets d = e = c = 1)
+        0real < settings.equilibrate_min_scaling.v() <= 1real, 1real <= settings.equilibrate_max_scaling.v(),
+        within(old(self).equilibration.d@, settings.equilibrate_min_scaling.v(), settings.equilibrate_max_scaling.v()),
+        within(old(self).equilibration.e@, settings.equilibrate_min_scaling.v(), settings.equilibrate_max_scaling.v()),
+        settings.equilibrate_min_scaling.v() <= old(self).equilibration.c.v() <= settings.equilibrate_max_scaling.v(),
     ensures
         // C10: "With equilibration disabled the data are untouched"
         !settings.equilibrate_enable ==> *final(self) == *old(self),
         // the sparsity patterns and all lengths are never changed
         final(self).shape_ok(), final(self).P.same_pattern(&old(self).P), final(self).A.same_pattern(&old(self).A),
         final(self).n == old(self).n, final(self).m == old(self).m,
+        // C10 (real arithmetic): "every scaling factor (cumulative) stays within [equilibrate_min_scaling, equilibrate_max_scaling]"
+        within(final(self).equilibration.d@, settings.equilibrate_min_scaling.v(), settings.equilibrate_max_scaling.v()),
+        within(final(self).equilibration.e@, settings.equilibrate_min_scaling.v(), settings.equilibrate_max_scaling.v()),
+        settings.equilibrate_min_scaling.v() <= final(self).equilibration.c.v() <= settings.equilibrate_max_scaling.v(),
+//@pre
+        broadcast use real_arith;
 //@before_loop 1
         let ghost P0 = *P;
         let ghost A0 = *A;
         let ghost nn = d@.len();
         let ghost mm = e@.len();
+        let ghost lo = scale_min.v();
+        let ghost hi = scale_max.v();
 //@loop 1
             invariant
                 P.same_pattern(&P0), A.same_pattern(&A0), P0.colptr_ok(), A0.colptr_ok(),
                 P0.n == nn, A0.n == nn, rows_below(P0, nn as int), rows_below(A0, mm as int),
                 q@.len() == nn, b@.len() == mm, d@.len() == nn, dwork@.len() == nn, e@.len() == mm, ework@.len() == mm,
+                lo == scale_min.v(), hi == scale_max.v(), 0real < lo <= 1real, 1real <= hi,
+                within(d@, lo, hi), within(e@, lo, hi), lo <= equil.c.v() <= hi,
+//@body_start 1
+            broadcast use real_arith;
 //@loop 2
                 invariant r14_n1 == nn, d@.len() == nn, dwork@.len() == nn,
+                    lo == scale_min.v(), hi == scale_max.v(), 0real < lo <= 1real, 1real <= hi, within(d@, lo, hi),
+                    forall|k: int| 0 <= k < r14_i1 ==> lo <= d@[k].v() * (#[trigger] dwork@[k]).v() <= hi,
+//@body_start 2
+                broadcast use real_arith;
+                let ghost dw0 = dwork@[r14_i1 as int].v();
+                let ghost dd = d@[r14_i1 as int].v();
+//@body_end 2
+                proof {
+                    // (inside the body `dwork` / `d` name the current elements: rule R14 bindings)
+                    lemma_clip_keeps_bounds(dw0, dd, lo, hi, (*dwork).v());
+                    assert(lo <= dd * (*dwork).v() <= hi);
+                }
 //@loop 3
                 invariant r14_n2 == mm, e@.len() == mm, ework@.len() == mm,
+                    lo == scale_min.v(), hi == scale_max.v(), 0real < lo <= 1real, 1real <= hi, within(e@, lo, hi),
+                    forall|k: int| 0 <= k < r14_i2 ==> lo <= e@[k].v() * (#[trigger] ework@[k]).v() <= hi,
+//@body_start 3
+                broadcast use real_arith;
+                let ghost ew0 = ework@[r14_i2 as int].v();
+                let ghost ee = e@[r14_i2 as int].v();
+//@body_end 3
+                proof {
+                    lemma_clip_keeps_bounds(ew0, ee, lo, hi, (*ework).v());
+                    assert(lo <= ee * (*ework).v() <= hi);
+                }
+//@before "if cones.rectify_equilibration(ework, e)"
+        let ghost e_before = e@;
+//@after "if cones.rectify_equilibration(ework, e)"
+        proof {
+            assert forall|i: int| 0 <= i < e@.len() implies lo <= (#[trigger] e@[i]).v() <= hi by {
+                if e@[i] != e_before[i] {
+                    assert(rect_ok(e_before, ework@, i));
+                    let j1 = choose|j: int| 0 <= j < e_before.len() && (#[trigger] e_before[j]).v() <= e_before[i].v() * ework@[i].v();
+                    let j2 = choose|j: int| 0 <= j < e_before.len() && e_before[i].v() * ework@[i].v() <= (#[trigger] e_before[j]).v();
+                    assert(lo <= e_before[j1].v() && e_before[j2].v() <= hi);
+                }
+            }
+        }
+//@before "let ctmp = F::clip(&ctmp"
+                let ghost ct0 = ctmp.v();
+                let ghost cc = equil.c.v();
+//@after "let ctmp = F::clip(&ctmp"
+                proof { lemma_clip_keeps_bounds(ct0, cc, lo, hi, ctmp.v()); }
 //@end
 }
 
